@@ -239,6 +239,21 @@ fn pick_oti(rng: &mut Rng, sch: Scheme, small: bool) -> OtiP {
     OtiP { sch, e, b, p, ifti: rng.bool() }
 }
 
+/// first TOI of a session: TOIs are up to 112 bits wide; the values sit at the field-width boundaries
+/// of the LCT header (16/32/48/64/80/112 bits) so that the objects of one session straddle them, the
+/// last one makes the allocator wrap around to 1
+pub const TOI0S: [u128; 9] = [
+    0xFFFF,
+    0xFFFF_FFFF,
+    0xFFFF_FFFF_FFFF,
+    0xFFFF_FFFF_FFFF_FFFE,
+    0x1_0000_0000_0000_0000,
+    0xFFFF_FFFF_FFFF_FFFF_FFFF,
+    0x1234_5678_9ABC_DEF0_1234_5678,
+    0xFFFF_FFFF_FFFF_FFFF_FFFF_FFFF_FFFE,
+    0xFFFF_FFFF_FFFF_FFFF_FFFF_FFFF_FFFF,
+];
+
 /// object sizes around the symbol / block / partition boundaries
 fn size_grid(o: &OtiP) -> Vec<u64> {
     let e = o.e as u64;
@@ -340,7 +355,110 @@ pub fn gen_c01(seed: u64, thorough: bool) -> Vec<CaseSpec> {
             push(sp, &mut cases, if run { vec![Plan::Full] } else { vec![] });
         }
     }
+    // (2b) the limit applies to the TRANSFER length (what the wire carries), not to the content length:
+    // incompressible content just below the maximum grows past it when content-encoded and must be
+    // refused; compressible content far above the maximum shrinks below it and must be delivered
+    for sch in [Scheme::NoCode, Scheme::Rs, Scheme::RaptorQ, Scheme::Raptor] {
+        let (e, b) = if sch == Scheme::Raptor { (1u32, 4u32) } else { (2u32, 2u32) };
+        let o = OtiP { sch, e, b, p: if sch == Scheme::NoCode { 0 } else { 1 }, ifti: true };
+        let max = crate::sess::scheme_max_tl(&o) as u64;
+        let small = max <= 3000;
+        for (ci, cenc) in ["zlib", "deflate", "gzip"].iter().enumerate() {
+            let mut szs: Vec<(u64, char)> = vec![(max, 'r'), (max - 2, 'r'), (max - 6, 'r'), (max - 12, 'r'), (max - 40, 'r')];
+            if sch != Scheme::Raptor {
+                szs.push((max + 1, 'z'));
+                szs.push((2 * max + 7, 'z'));
+                szs.push((max + 1 + ci as u64, 'p'));
+            }
+            for (sz, ck) in szs {
+                // incompressible objects near the maximum of the 16-bit-SBN schemes take 131 k packets
+                // when accepted: they are run in the thorough tier only
+                let run = sch != Scheme::Raptor && (small || ck != 'r' || thorough);
+                let mut sp = SessP::default();
+                sp.oti = OtiP { e: if sch == Scheme::Raptor { 64 } else { 1024 }, b: 8, ..o };
+                sp.n = if run { 0 } else { 8 };
+                let mut ob = ObjP::default();
+                ob.sz = sz;
+                ob.ck = ck;
+                ob.seed = sz ^ 0x55;
+                ob.cenc = cenc.to_string();
+                ob.icenc = sz % 2 == 0;
+                ob.oti = Some(o);
+                ob.src = if ci == 1 { "filecached".into() } else { "buf".into() };
+                sp.objs.push(ob);
+                push(sp, &mut cases, if run { vec![Plan::Full] } else { vec![] });
+            }
+        }
+    }
+    // (2c) source blocks above the FEC library's K maximum (8192 Raptor, 56403 RaptorQ) are refused by
+    // add_object (/repo 29615e2; before, the object was accepted and Sender::read panicked); a block of
+    // exactly K_max symbols is accepted (and delivered: thorough tier, the encoders take a while)
+    for (sch, kmax) in [(Scheme::Raptor, 8192u32), (Scheme::RaptorQ, 56403u32)] {
+        for (b, nsym, run) in [(kmax, kmax as u64, thorough), (kmax + 1, kmax as u64 + 1, false), (kmax + 1, kmax as u64, thorough && sch == Scheme::Raptor), (65535, 2 * kmax as u64 + 1, false), (65535, 65535, false)] {
+            let o = OtiP { sch, e: 4, b, p: 1, ifti: true };
+            let mut sp = SessP::default();
+            sp.oti = OtiP { sch, e: 64, b: 8, p: 1, ifti: true };
+            sp.n = if run { 0 } else { 8 };
+            let mut ob = ObjP::default();
+            ob.sz = 4 * nsym - 1;
+            ob.oti = Some(o);
+            sp.objs.push(ob);
+            push(sp, &mut cases, if run { vec![Plan::Full] } else { vec![] });
+        }
+    }
+    // (2d) degenerate configuration values the sender accepts: interleave_blocks = 0 (treated as 1 since
+    // /repo 0805b7e) and max_transfer_count = 0 (one transfer, no close-object flag)
+    for sch in Scheme::ALL {
+        for (w, m) in [(0u32, 1u32), (1, 0), (0, 0), (2, 0)] {
+            let mut sp = SessP::default();
+            sp.oti = OtiP { sch, e: if sch == Scheme::Raptor { 64 } else { 1024 }, b: 8, p: if sch == Scheme::NoCode { 0 } else { 1 }, ifti: true };
+            sp.w = w;
+            sp.ro = m == 0 && w != 2;
+            for j in 0..2u64 {
+                let mut ob = ObjP::default();
+                ob.oti = Some(OtiP { sch, e: 4, b: 4, p: if sch == Scheme::NoCode { 0 } else { 2 }, ifti: j == 0 });
+                ob.sz = 4 * 4 * 3 - j;
+                ob.seed = j;
+                ob.m = if j == 0 { m } else { 1 };
+                sp.objs.push(ob);
+            }
+            push(sp, &mut cases, vec![Plan::Full]);
+        }
+    }
     // RS under-specified reaches the 48-bit field cap: sparse source, only add_object is exercised
+    // (E * B * (2^32 - 1) must exceed the cap for the cap to be the binding limit: B = 65; with B = 64 the
+    // block maximum 2^48 - 65536 binds)
+    for (bb, sz) in [
+        (65u32, 0xFFFF_FFFF_FFFFu64),
+        (65, 0x1_0000_0000_0000u64),
+        (64, 0xFFFF_FFFF_0000u64),
+        (64, 0xFFFF_FFFF_0001u64),
+    ] {
+        let o = OtiP { sch: Scheme::RsUs, e: 1024, b: bb, p: 1, ifti: true };
+        let mut sp = SessP::default();
+        sp.oti = o;
+        sp.n = 6;
+        let mut ob = ObjP::default();
+        ob.sz = sz;
+        ob.src = "sparse".into();
+        ob.md5 = false;
+        sp.objs.push(ob);
+        push(sp, &mut cases, vec![]);
+    }
+    // RS under-specified (2,2): the block maximum E * B * (2^32 - 1) with a sparse source
+    for sz in [2u64 * 2 * 0xFFFF_FFFF, 2 * 2 * 0xFFFF_FFFF + 1] {
+        let o = OtiP { sch: Scheme::RsUs, e: 2, b: 2, p: 1, ifti: true };
+        let mut sp = SessP::default();
+        sp.oti = OtiP { e: 1024, b: 8, ..o };
+        sp.n = 6;
+        let mut ob = ObjP::default();
+        ob.sz = sz;
+        ob.oti = Some(o);
+        ob.src = "sparse".into();
+        ob.md5 = false;
+        sp.objs.push(ob);
+        push(sp, &mut cases, vec![]);
+    }
     for (sz, _) in [(0xFFFF_FFFF_FFFFu64, true), (0x1_0000_0000_0000u64, false)] {
         let o = OtiP { sch: Scheme::RsUs, e: 1024, b: 64, p: 1, ifti: true };
         let mut sp = SessP::default();
@@ -372,7 +490,7 @@ pub fn gen_c01(seed: u64, thorough: bool) -> Vec<CaseSpec> {
             sp.oti.e = *rng.pick(&[16u32, 32, 64]);
             sp.oti.b = *rng.pick(&[8u32, 64]);
         }
-        sp.w = 1 + rng.below(4) as u32;
+        sp.w = if rng.chance(1, 16) { 0 } else { 1 + rng.below(4) as u32 };
         sp.full = rng.bool();
         sp.ro = rng.bool();
         sp.fcenc = rng.pick(&["null", "null", "zlib", "deflate", "gzip"]).to_string();
@@ -382,6 +500,9 @@ pub fn gen_c01(seed: u64, thorough: bool) -> Vec<CaseSpec> {
         sp.wmd5 = rng.chance(3, 4);
         sp.rx = if rng.chance(1, 4) { "multi".into() } else { "recv".into() };
         sp.sgrp = rng.chance(1, 5);
+        if rng.chance(1, 4) {
+            sp.toi0 = *rng.pick(&TOI0S);
+        }
         if rng.chance(1, 5) {
             sp.dt = 1000;
             sp.fcar = Car::Delay(*rng.pick(&[0u64, 2500, 10_000]));
@@ -406,7 +527,7 @@ pub fn gen_c01(seed: u64, thorough: bool) -> Vec<CaseSpec> {
             ob.seed = rng.below(100_000);
             ob.ck = *rng.pick(&['r', 'p', 'p', 'z']);
             ob.q = rng.below(nq as u64) as u32;
-            ob.m = *rng.pick(&[1u32, 1, 2, 3]);
+            ob.m = *rng.pick(&[1u32, 1, 1, 1, 2, 2, 3, 3, 0]);
             ob.cenc = rng.pick(&["null", "null", "null", "zlib", "deflate", "gzip"]).to_string();
             ob.icenc = rng.bool();
             ob.src = rng.pick(&["buf", "buf", "stream", "file", "filecached"]).to_string();
@@ -527,6 +648,9 @@ pub fn gen_c02(seed: u64, thorough: bool) -> Vec<CaseSpec> {
                 sp.ro = rng.bool();
                 sp.full = rng.bool();
                 sp.mux = vec![*rng.pick(&[1u32, 2, 3])];
+                if rng.chance(1, 4) {
+                    sp.toi0 = *rng.pick(&TOI0S);
+                }
                 let nobj = 1 + rng.below(3);
                 for _ in 0..nobj {
                     let mut ob = ObjP::default();
@@ -609,6 +733,11 @@ pub fn gen_c16(seed: u64, thorough: bool) -> Vec<CaseSpec> {
                         sp.idle = 1000;
                         sp.fcar = Car::Delay(*rng.pick(&[20_000u64, 60_000]));
                         sp.n = 1200;
+                        // every third session hands out wide TOIs (an object seen before its FDT must
+                        // still be attached when the FDT completes, whatever the width of its TOI)
+                        if n % 3 == 1 {
+                            sp.toi0 = TOI0S[(n / 3) % TOI0S.len()];
+                        }
                         for j in 0..nobj {
                             let mut ob = ObjP::default();
                             let e = *rng.pick(&[4u32, 8]);
@@ -626,9 +755,11 @@ pub fn gen_c16(seed: u64, thorough: bool) -> Vec<CaseSpec> {
                             }
                             ob.seed = rng.below(10_000);
                             ob.car = car;
-                            ob.icenc = inband;
-                            if (n + j) % 5 == 0 && ob.sz > 0 && sch != Scheme::Raptor {
-                                ob.cenc = "zlib".into();
+                            // EXT_CENC independent of EXT_FTI: a late joiner must take the content
+                            // encoding from the FDT when only the FTI travels in-band
+                            ob.icenc = if (n + j) % 2 == 0 { inband } else { !inband };
+                            if (n + j) % 3 == 0 && ob.sz > 0 && sch != Scheme::Raptor {
+                                ob.cenc = ["zlib", "deflate", "gzip"][(n / 3 + j) % 3].into();
                                 ob.ck = 'p';
                             }
                             sp.objs.push(ob);
